@@ -505,7 +505,7 @@ class EstimationProviderLinked(EstimationProvider):
             dataset_clps, dataset_residual = [], []
             for index in range(self._data_provider.aligned_global_axis.size):
                 group_label = self._data_provider.get_aligned_group_label(index)
-                if dataset_label not in group_label:
+                if dataset_label not in self._data_provider.group_definitions[group_label]:
                     continue
 
                 group_datasets = self._data_provider.group_definitions[group_label]
